@@ -1,6 +1,7 @@
 package core
 
 import (
+	"go/constant"
 	"go/token"
 	"go/types"
 
@@ -18,6 +19,8 @@ type Zone struct {
 }
 
 const zInf = int64(1) << 60
+
+var constantZero = constant.MakeInt64(0)
 
 func NewZone() *Zone {
 	z := &Zone{idx: map[string]int{}}
@@ -259,4 +262,119 @@ func (z *Zone) ProveLEKey(v ssa.Value, key string, c int64) bool {
 	z.node(key)
 	z.close()
 	return z.d[z.idx[k]][z.idx[key]] <= c-off
+}
+
+// ---------------------------------------------------------------- helper post-conditions
+
+// retBound is a fact about the integer result of a helper that holds at every return:
+// kind "le": result <= param[idx]; "ge": result >= param[idx]; "ge0": result >= 0.
+type retBound struct {
+	kind string
+	idx  int
+}
+
+type retBoundKey struct {
+	h      *ssa.Function
+	nonneg uint64
+}
+
+var retBoundMemo = map[retBoundKey][]retBound{}
+
+// retBounds computes order relations between the single integer result of h and its integer
+// parameters / zero that the zone domain proves on every return case (e.g. a clamp helper:
+// 0 <= result <= limit), assuming the parameters whose bit is set in nonneg are >= 0 (the caller
+// establishes that for its actual arguments, typically a len()).
+func retBounds(h *ssa.Function, nonneg uint64) []retBound {
+	key := retBoundKey{h, nonneg}
+	if rb, ok := retBoundMemo[key]; ok {
+		return rb
+	}
+	retBoundMemo[key] = nil
+	if h == nil || len(h.Blocks) == 0 || h.Signature.Results().Len() != 1 || !IsInteger(h.Signature.Results().At(0).Type()) || len(h.Params) > 60 {
+		return nil
+	}
+	cases := ReturnCases(h)
+	if len(cases) == 0 || len(cases) > 32 {
+		return nil
+	}
+	var cands []retBound
+	cands = append(cands, retBound{"ge0", -1})
+	for i, prm := range h.Params {
+		if IsInteger(prm.Type()) {
+			cands = append(cands, retBound{"le", i}, retBound{"ge", i})
+		}
+	}
+	zero := ssa.NewConst(constantZero, types.Typ[types.Int])
+	var keep []retBound
+	for _, cd := range cands {
+		all := true
+		for _, rc := range cases {
+			z := NewZone()
+			for _, m := range rc.Cmps() {
+				z.AddCmp(m)
+			}
+			for i, prm := range h.Params {
+				if nonneg&(1<<uint(i)) != 0 {
+					z.AddCmp(Cmp{Op: token.GEQ, X: prm, Y: zero})
+				}
+			}
+			v := rc.Vals[0]
+			ok := false
+			switch cd.kind {
+			case "ge0":
+				ok = z.ProveLE(nil, v, 0)
+			case "le":
+				ok = z.ProveLE(v, h.Params[cd.idx], 0)
+			case "ge":
+				ok = z.ProveLE(h.Params[cd.idx], v, 0)
+			}
+			if !ok {
+				all = false
+				break
+			}
+		}
+		if all {
+			keep = append(keep, cd)
+		}
+	}
+	retBoundMemo[key] = keep
+	return keep
+}
+
+// ZoneAtIP is ZoneAt extended with the post-conditions of the integer-valued repo helpers called in
+// b's function (the facts relate a call's result to its actual arguments).
+func ZoneAtIP(p *Prog, b *ssa.BasicBlock) *Zone {
+	z := ZoneAt(b)
+	Instrs(b.Parent(), func(ins ssa.Instruction) {
+		call, ok := ins.(*ssa.Call)
+		if !ok {
+			return
+		}
+		h := Callee(&call.Call)
+		if h == nil || !p.InRepo(h) {
+			return
+		}
+		// which actual arguments are known to be non-negative here
+		var nonneg uint64
+		for i, a := range call.Call.Args {
+			if i < 60 && IsInteger(a.Type()) && z.ProveLE(nil, a, 0) {
+				nonneg |= 1 << uint(i)
+			}
+		}
+		for _, rb := range retBounds(h, nonneg) {
+			switch rb.kind {
+			case "ge0":
+				z.AddCmp(Cmp{Op: token.GEQ, X: call, Y: ssa.NewConst(constantZero, types.Typ[types.Int])})
+			case "le":
+				if rb.idx < len(call.Call.Args) {
+					z.AddCmp(Cmp{Op: token.LEQ, X: call, Y: call.Call.Args[rb.idx]})
+				}
+			case "ge":
+				if rb.idx < len(call.Call.Args) {
+					z.AddCmp(Cmp{Op: token.GEQ, X: call, Y: call.Call.Args[rb.idx]})
+				}
+			}
+		}
+	})
+	return z
 }
